@@ -660,6 +660,9 @@ func (device *AbacoUDPReceiver) samplePackets(maxSampleTime time.Duration) (allP
 
 // stop closes the UDP connection
 func (device *AbacoUDPReceiver) stop() error {
+	if device.conn == nil { // never started, or start() failed to bind
+		return nil
+	}
 	err := device.conn.Close()
 	close(device.sendmore)
 	return err
@@ -829,6 +832,20 @@ func (as *AbacoSource) distributePackets(allpackets []*packets.Packet, now time.
 
 // Sample determines key data facts by sampling some initial data.
 func (as *AbacoSource) Sample() error {
+	err := as.sampleProducers()
+	if err == nil && as.nchan <= 0 {
+		err = fmt.Errorf("no Abaco data packets were seen while sampling")
+	}
+	if err != nil {
+		// Start() will not run (and therefore never stop) this source. Release the devices that were opened
+		// for sampling, or a later Start finds its UDP ports still bound ("address already in use").
+		as.closeDevices()
+	}
+	return err
+}
+
+// sampleProducers starts all packet producers and samples their data.
+func (as *AbacoSource) sampleProducers() error {
 	if len(as.producers) <= 0 {
 		return fmt.Errorf("no Abaco ring buffers or UDP receivers are active")
 	}
@@ -838,7 +855,7 @@ func (as *AbacoSource) Sample() error {
 		allpackets []*packets.Packet
 		err        error
 	}
-	sampleResults := make(chan SampleResult)
+	sampleResults := make(chan SampleResult, len(as.producers)) // buffered: an early error return must not strand the others
 	timeout := 2000 * time.Millisecond
 	for _, pp := range as.producers {
 		go func(pp PacketProducer) {
